@@ -120,12 +120,15 @@ Definition merge_create (docs : list tree) (divider : bool) : res tree :=
   end.
 
 (* ---------------- zip: xreftable.go weaveInPage / insertPagesDepth / AppendPages ----------------
-   weaveInPage: the source page dict gets Parent := dest parent, and Rotate / MediaBox made
-   explicit from the inherited values when absent (CropBox is not). *)
+   weaveInPage (and the loop of AppendPages): the source page dict gets Parent := dest parent, and
+   Rotate / MediaBox / CropBox / Resources are pinned into the dict from the inherited values when the
+   dict has no own entry (CropBox and Resources only if an inherited value exists). *)
 Definition weave_page (r : rpage) : pageD :=
   let (p, a) := r in
   mkPage (pg_id p)
-    (mkAttrs (Some (rot_of a)) (a_media a) (a_crop (pg_attrs p)) (a_res (pg_attrs p)))
+    (mkAttrs (Some (rot_of a)) (a_media a)
+             (orelse (a_crop (pg_attrs p)) (a_crop a))
+             (a_res (pg_attrs p) || a_res a))
     (pg_trim p) (pg_bleed p) (pg_art p).
 
 (* insertPagesDepth: walk the destination tree; after the p-th destination page the p-th source page
